@@ -49,7 +49,7 @@ impl Check for C08 {
         } else {
             let net = calm_net(&mut g);
             let big = g.chance(20);
-            json!({"net": net, "mode": "e2e", "closer": *g.pick(&["app", "target"]), "how": *g.pick(&["close", "half-close"]),
+            json!({"net": net, "mode": "e2e", "closer": *g.pick(&["app", "target"]), "how": *g.pick(&["close", "half-close", "close", "half-close", "reset"]),
                 "fwd_bytes": if big { g.range(50_000, 200_000) } else { *g.pick(&[0u64, 1, 100, 8192, 8193, 20_000]) },
                 "rev_bytes": *g.pick(&[0u64, 1, 500, 9_000]), "after_bytes": g.range(1, 3_000), "siblings": g.range(0, 3), "via": *g.pick(&["socks5", "socks5", "http"])})
         }
@@ -87,7 +87,7 @@ impl Check for C08 {
         out
     }
     fn rule(&self) -> &'static str {
-        "one case = (recv, 55%) 1-4 streams on a real client or server Session to which a scripted peer sends 0-6 PSH chunks each (interleaved across streams) and then FIN for most of them, with the stream reader blocked in read, slow, or starting only after everything arrived, then the SUT writes on the finished stream; or (e2e, 45%) a SOCKS5 / HTTP CONNECT tunnel through the whole system where the application or the target closes or half-closes after sending 0-200000 bytes with 0-9000 bytes flowing the other way, followed by more bytes in the reverse direction, with 0-3 sibling tunnels, and task / table accounting 60 virtual s after both directions ended; every case is non-trivial; distinct = distinct (plan hash, poll-order fingerprint)"
+        "one case = (recv, 55%) 1-4 streams on a real client or server Session to which a scripted peer sends 0-6 PSH chunks each (interleaved across streams) and then FIN for most of them, with the stream reader blocked in read, slow, or starting only after everything arrived, then the SUT writes on the finished stream; or (e2e, 45%) a SOCKS5 / HTTP CONNECT tunnel through the whole system where the application or the target closes, half-closes or (1 case in 5) is reset after sending 0-200000 bytes with 0-9000 bytes flowing the other way, followed by more bytes in the reverse direction, with 0-3 sibling tunnels, and task / table accounting 60 virtual s after both directions ended; every case is non-trivial; distinct = distinct (plan hash, poll-order fingerprint)"
     }
     fn real_components(&self) -> Vec<&'static str> {
         vec!["Session::handle_frame (Push, Fin), Stream, StreamReader (recv mode)", "SOCKS5 / HTTP front-end forwarding tasks, Client, Session both sides, Server, TcpProxyHandler forwarding tasks, rustls (e2e mode)"]
@@ -417,6 +417,61 @@ async fn run_e2e(plan: &Value) -> Outcome {
         o_w
     });
     let _ = c_w.write_all(&fwd_data).await;
+    if how == "reset" {
+        // an abortive end: the closer's connection is reset with whatever is in flight (the proxy's reads on it fail
+        // with ConnectionReset, its writes with BrokenPipe). Nothing is promised about bytes in flight; what must
+        // hold is that nobody else is hurt: the opposite endpoint never sees bytes that were not sent, sibling tunnels
+        // and the session keep working, and a new tunnel can be opened.
+        let dialed: std::net::SocketAddr = if closer == "app" { if via == "http" { HTTP_ADDR.parse().unwrap() } else { SOCKS_ADDR.parse().unwrap() } } else { "198.51.100.8:9000".parse().unwrap() };
+        if let Some(c) = anytls_simnet::world::with(|w| w.net.conns_to(dialed)).unwrap_or_default().last().cloned() {
+            // closer == app: the application is the connector (fwd = app -> proxy); closer == target: the target is the acceptor
+            let (proxy_reads, proxy_writes) = if closer == "app" { (c.fwd.clone(), c.back.clone()) } else { (c.back.clone(), c.fwd.clone()) };
+            proxy_reads.set_read_fault(proxy_reads.total_read(), anytls_simnet::pipe::ReadFault::Reset);
+            proxy_writes.set_write_fault(proxy_writes.total_written(), std::io::ErrorKind::BrokenPipe);
+            anytls_simnet::world::fault_fired("transport.reset_of_one_tunnel_endpoint");
+        }
+        let mut got = Vec::new();
+        let mut b = vec![0u8; 8192];
+        let deadline = tokio::time::Instant::now() + Duration::from_secs(20);
+        loop {
+            match tokio::time::timeout_at(deadline, o_r.read(&mut b)).await {
+                Ok(Ok(k)) if k > 0 => got.extend_from_slice(&b[..k]),
+                _ => break,
+            }
+        }
+        let sig = format!("{}-resets", closer_name);
+        if got.len() > fwd_data.len() || got[..] != fwd_data[..got.len()] {
+            out.viol("data-before-eof", format!("e2e:bytes-differ:{}", sig), format!("the {} sent {} bytes and was reset; the {} received {} bytes that are not a prefix of them", closer_name, fwd_data.len(), other_name, got.len()));
+        }
+        let _ = rev_writer.await;
+        drop(c_w);
+        drop(c_r);
+        drop(o_r);
+        sleep(Duration::from_secs(20)).await;
+        for s in client.verif_pool().verif_sessions().await.iter().chain(sess.iter()) {
+            if s.is_closed() {
+                out.viol("sibling", format!("e2e:session-closed:{}", sig), "the reset of one tunnel endpoint closed the whole client session");
+                break;
+            }
+        }
+        for s in sibs.iter_mut() {
+            if !ping(s, b"sibling-after").await {
+                out.viol("sibling", format!("e2e:sibling-broken:{}", sig), "a sibling tunnel on the same client stopped working after another tunnel's endpoint was reset");
+                break;
+            }
+        }
+        let fresh = match socks5_connect("192.0.2.99", 7).await {
+            Ok((mut s, 0)) => ping(&mut s, b"new-tunnel-after").await,
+            _ => false,
+        };
+        match fresh {
+            true => {}
+            false => out.viol("sibling", format!("e2e:new-tunnel-fails:{}", sig), "no new tunnel can be opened after another tunnel's endpoint was reset"),
+        }
+        out.nontrivial = true;
+        out.summary = json!({"mode": "e2e", "closer": closer, "how": how, "fwd": fwd, "rev": rev, "delivered_before_reset": got.len()});
+        return out;
+    }
     // the close, with whatever is still in flight
     let t_close = now_us();
     let mut c_w_opt = None;
